@@ -1,6 +1,7 @@
 import ServiceModel.Driver.Wire
 import ServiceModel.Model.Genesis
 import ServiceModel.Model.Restart
+import ServiceModel.Model.ModSvc
 /-!
 # Wire format of the query ops (harness/SPEC.md §4.1)
 
@@ -187,5 +188,37 @@ def runGenOp (s : State) : GenOp → State × List String
     match restart s s.height s.time with
     | none => (s, ["R panic restart"] ++ sortLines (stateLines s))
     | some s' => (s', ["R ok"] ++ sortLines ((prep s).effs.map effStr) ++ sortLines (stateLines s'))
+
+/-! ### the module-service ops `modcall` / `modbind` (SPEC.md §3): outside `Op`, run by `Model/ModSvc.lean` -/
+/-- the provider the harness registers its module service with (`modSvcProvider` of cmd/trace/exec.go) -/
+def modSvcProvider : Addr := String.ofList (List.replicate 40 'e')
+
+inductive ModOp
+  | call (op : Op) (code : Nat) (out : OutKind)       -- `op` is the `call` the message would be for an ordinary service
+  | bind (svc : SvcName) (prov owner : Addr) (dep : Option Nat) (text : Option PricingText) (qos : Nat)
+
+def parseModOp (l : String) : Option ModOp :=
+  let (name, f) := parseLine l
+  match name with
+  | "modcall" =>
+    match parseOp "call" f, (fld f "mscode").bind parseNat, (fld f "msout").bind outOf with
+    | some (.op o), some code, some out => some (.call o code out)
+    | _, _, _ => none
+  | "modbind" =>
+    match parseOp "bind" f with
+    | some (.op (.bind svc prov owner dep text qos)) => some (.bind svc prov owner dep text qos)
+    | _ => none
+  | _ => none
+
+def runModOp (s : State) : ModOp → Out
+  | .call o code out =>
+    if !validateBasic o then (s, .invalid, [])
+    else match o with
+      | .call id svc _ cons cap _ _ _ _ _ inputOk => callMod s id svc modSvcProvider cons cap inputOk code out
+      | _ => (s, .invalid, [])
+  | .bind svc prov owner dep text qos =>
+    match text with
+    | some t => modBind s svc prov owner dep t qos
+    | none => fail s .invalidPricing
 
 end SM.Wire
